@@ -1,7 +1,7 @@
 import MirModel
 open Mir
 
-def handlers : List Handler := [Scores.handler, Matching.handler, HitMetric.handler, Chord.handler, Multipitch.handler, Beat.handler]
+def handlers : List Handler := [Scores.handler, Matching.handler, HitMetric.handler, Chord.handler, Multipitch.handler, Beat.handler, Melody.handler, Intervals.handler, Pattern.handler, Onset.handler, Boundary.handler, Tempo.handler, Alignment.handler, IO.handler]
 
 def dispatch (fn : String) (args : List Val) : Option (Py Val) :=
   handlers.firstM fun h => h fn args
